@@ -147,3 +147,7 @@ Definition owned (s : hstate) : list nat := flat_map r_bufs (readers s) ++ flat_
 (* C04 boolean spec on one observed storm: never more than cap requests inside the
    resolver at once, and afterwards exactly cap slow requests can be inside together *)
 Definition c04_ok (k max_during barrier : Z) : bool := (max_during <=? k) && (barrier =? k).
+(* with several listen addresses every other UDP read loop may sit idle holding the unit it took before
+   reading: between k - (addresses - 1) and k slow requests can be inside together, never more than k *)
+Definition c04_ok_multi (k addrs max_during barrier : Z) : bool :=
+  (max_during <=? k) && (k - (addrs - 1) <=? barrier) && (barrier <=? k).
